@@ -478,6 +478,16 @@ def decoders(ctx, rep):
                 args = [Ptr('str', 0), coin, Ptr('lang_out', 0), Ptr('seed_out', 0)]
             else:
                 st.mem.new('lang', 8, 0)
+                from .ir import LANG_STRUCT
+                lf_ = {n_: (o_, sz_) for o_, (n_, sz_) in P.field_table(LANG_STRUCT).items()}
+                def lang_hook(I_, st_, ptr, nbytes, inst, as_ptr, lf_=lf_):
+                    c0 = ptr.parts[0] if ptr.parts else ptr.coff()
+                    for nm_, (o_, sz_) in lf_.items():
+                        if o_ == c0 and nm_ in ('is_sorted', 'has_prefix', 'has_accents', 'compose'):
+                            return BV([I_.V.bit('lang.' + nm_)] + [0] * (8 * nbytes - 1))
+                        if o_ == c0 and nm_ in ('name', 'name_en', 'separator'): return Tag(nm_)
+                    raise Unmodelled('decoder reads the language table at offset %s (%s)' % (c0, inst.loc))
+                st.mem.hooks = {'lang': lang_hook}
                 args = [Ptr('str', 0), coin, Ptr('lang', 0), Ptr('seed_out', 0)]
             outs = I.run(f, args, st)
             results[fname] = (I, outs)
@@ -512,6 +522,10 @@ def decoders(ctx, rep):
                         wipe_pos = max([n for n, t in enumerate(tr) if t[0] == 'memzero' and (':%s:' % loc_) in t[1]] + [-1])
                         if need:
                             rep.check(bool(wz) and wipe_pos > last_use, '%s: %s wiped after its last use' % (cons, loc_), w, cons, detail=kinds, key=key + '|wipe-' + loc_)
+                    nk = [n_ for n_, t in enumerate(tr) if t[0] == 'utf8_nfkd_lazy']; sp = [n_ for n_, t in enumerate(tr) if t[0] == 'str_split']
+                    okn = len(nk) == 1 and len(sp) == 1 and nk[0] < sp[0] and tr[nk[0]][1] == repr(Ptr('str', 0)) and tr[nk[0]][2] == tr[sp[0]][1]
+                    rep.check(okn, '%s: the input is NFKD-normalised (utf8_nfkd_lazy(str, buf)) before str_split(buf, ...) on every path' % cons, w, cons,
+                              detail=[str(t)[:100] for t in tr[:3]], key=key + '|nfkd-first')
                     if nm == 'POLYSEED_ERR_NUM_WORDS':
                         rep.check(not pdc and not has_alloc, 'NUM_WORDS is decided before the phrase search and before any allocation', w, cons, detail=kinds, key=key + '|order')
                     elif nm in ('POLYSEED_ERR_LANG', 'POLYSEED_ERR_MULT_LANG'):
@@ -569,6 +583,14 @@ def decoders(ctx, rep):
                         ft = [C.reduce(b) for b in get(o.state, H, fo['features'][0], 4).bits]
                         rep.check(all(b == 0 for b in ft[:4]) and all(b == 0 for b in ft[5:]), 'OK only if no reserved feature bit (0-3 under the default mask) is set in the seed handed out', w, cons,
                                   detail=[I.V.show(b) for b in ft[:6]], key=key + '|features')
+                        rep.check(not is_const(ft[4]), 'the encrypted flag is accepted either way (not constrained on the OK exit)', w, cons, detail=I.V.show(ft[4]), key=key + '|encrypted-free')
+                        # the acceptance condition is exactly: Horner(idx, coin) = 0 and reserved feature bits = 0 - nothing else (in particular no
+                        # constraint on the coin alone)
+                        E = _expected_accept(I, P, coin, lay)
+                        extra = [I.V.show(E.reduce(mk(m_, c_))) for m_, c_ in C.rows.values() if E.reduce(mk(m_, c_)) != 0
+                                 and not all(n_.startswith('nwords.') for n_ in I.V.show_mask(m_))]     # (the word count summary symbol is the tokeniser's)
+                        rep.check(not extra, 'OK exit is constrained by nothing beyond "checksum over (indices, coin) vanishes" and "reserved feature bits are zero"', w, cons,
+                                  detail=extra[:4], key=key + '|exact-accept')
             summaries[fname] = sorted((inv_status.get(o.ret.concrete(), '?'), tuple(k for k in _exit_kind(o) if not k.startswith('phrase_decode') and k != 'alloc') ) for o in outs)
         rep.rule('DEC-SIBLING', 'the two decoders agree exit by exit (same statuses, same order of allocation, release, wipes and checks) once the '
                  'phrase-search call is abstracted; the auto-detecting one has the one extra MULT_LANG exit')
@@ -577,6 +599,28 @@ def decoders(ctx, rep):
         norm = lambda L: sorted((s, tuple(k.split(':')[0] for k in t)) for s, t in L)
         rep.check(norm(a) == norm(b), 'decode and decode_explicit have the same exit summaries', loc_of(P.fn('polyseed_decode')), 'polyseed_decode vs polyseed_decode_explicit',
                   detail={'decode': norm(a), 'explicit': norm(b)}, sample=[x[0] for x in a])
+
+
+def _expected_accept(I, P, coin, lay):
+    """constraint system of the specified acceptance condition on (idx, coin): Horner form zero; feature bits 0-3 zero"""
+    I2 = Interp(P, I.V); st2 = State(); st2.mem.new('p', 128, 0)
+    for k in range(16):
+        v = I.V.bv('idx%d' % k, GF_BITS).bits
+        if k == 1: v = [bxor(x, y) for x, y in zip(v, coin.bits[:GF_BITS])]
+        put(st2, 'p', 8 * k, BV(v + [0] * 53))
+    ev = I2.run(P.fns('gf_poly_eval')[0], [Ptr('p', 0)], st2)[0].ret
+    E = Constraints()
+    for b in ev.bits:
+        if b != 0: E.add(b, 0)
+    inv = {}
+    for i in range(1, 16):
+        for j in range(GF_BITS): inv[lay[i][j]] = (i, j)
+    for fb in range(4):
+        i, j = inv['features.%d' % fb]
+        b = I.V.bit('idx%d.%d' % (i, j))
+        if i == 1: b = bxor(b, coin.bits[j])
+        E.add(b, 0)
+    return E
 
 
 def _checksum_passed(I, P, o):
@@ -767,6 +811,10 @@ def encode_api(ctx, rep):
             for loc_ in ('poly', 'str_tmp'):
                 rep.check(bool(_wiped(o, loc_)), '%s wiped' % loc_, w, cons, key='ENC-TRACE|wipe-' + loc_)
             rep.check(o.state.mem.objs['seed'] == before, 'seed not modified', w, cons, key='ENC-TRACE|seed')
+            so_w = [t for t in o.state.trace if t[0] in ('memzero', 'memzero-symbolic-length', 'randbytes', 'write_str') and 'str_out' in str(t[1])]
+            so_acc = [a for a in I.accesses if a[2] == 'str_out' and a[5] == 'store']
+            rep.check(not so_w and not so_acc, 'the caller\'s buffer is written only by dep:u8_nfc(local, str_out) or by the one copy of the local buffer', w, cons,
+                      detail=[str(t)[:120] for t in so_w[:2]] + [str(a[:5]) for a in so_acc[:2]], key='ENC-TRACE|str_out-writes')
             others = [t[0] for t in o.state.trace if t[0] in ('alloc', 'free', 'randbytes', 'time', 'pbkdf2', 'u8_nfkd')]
             rep.check(not others, 'no other injected function used by encode', w, cons, detail=others, key='ENC-TRACE|deps')
 
